@@ -35,7 +35,14 @@ CLASSES = {
     "cX": dict(lp=100, aspath=[seq(255), seq(1)], origin=0, clen=0, oid=0, comm=[], mm=0),   # 256 hops
     "cM": dict(lp=50, aspath=[seq(3)], origin=2, clen=0, oid=0, comm=[], mm=3),           # MAC mobility seq 2 (mm = seq+1)
     "cm": dict(lp=300, aspath=[seq(1)], origin=0, clen=0, oid=0, comm=[], mm=1),          # MAC mobility seq 0
+    # classes carrying route targets (C20, VRF clause): r1 ties with c1, r2 ties with r1, r3 wins on LOCAL_PREF, r4 loses on AS_PATH
+    "r1": dict(lp=100, aspath=[seq(1)], origin=0, clen=0, oid=0, comm=[], mm=0, rts=[1]),
+    "r2": dict(lp=100, aspath=[seq(1, 65200)], origin=0, clen=0, oid=0, comm=[], mm=0, rts=[2]),
+    "r3": dict(lp=200, aspath=[seq(2)], origin=1, clen=0, oid=0, comm=[], mm=0, rts=[1, 2]),
+    "r4": dict(lp=100, aspath=[seq(2)], origin=0, clen=0, oid=0, comm=[], mm=0, rts=[2, 4]),
 }
+# VRFs with a kernel table: name -> (table id, route distinguisher, imported route targets)
+VRFS = {"va": (101, "65000:101", [1]), "vb": (102, "65000:102", [2]), "vc": (103, "65000:103", [3])}
 
 
 def aslen(c):
@@ -54,9 +61,15 @@ SESSIONS = {
     "a2": dict(peer="A", ebgp=True, rtr=20, ord=2),
     "b1": dict(peer="B", ebgp=False, rtr=10, ord=1),
     "c1": dict(peer="C", ebgp=True, rtr=30, ord=1),
+    # the other session roles: a route-server client counts as external at the eBGP-over-iBGP step, a route-reflector
+    # client and a confederation-external session count as internal (C02: "eBGP over iBGP/confed")
+    "d1": dict(peer="D", ebgp=True, rtr=40, ord=1, role="RsClient"),
+    "e1": dict(peer="E", ebgp=False, rtr=5, ord=1, role="ConfedEbgp"),
+    "f1": dict(peer="F", ebgp=False, rtr=15, ord=1, role="IbgpRrClient"),
 }
-PEER_ADDR = {"A": "10.0.0.1", "B": "10.0.0.2", "C": "10.0.0.3"}
-PREFIXES = {"p1": "10.1.0.0/16", "p2": "10.1.128.0/17", "p3": "2001:db8::/33", "e1": "evpn2:1", "e2": "evpn2:2"}
+PEER_ADDR = {"A": "10.0.0.1", "B": "10.0.0.2", "C": "10.0.0.3", "D": "10.0.0.4", "E": "10.0.0.5", "F": "10.0.0.6"}
+PREFIXES = {"p1": "10.1.0.0/16", "p2": "10.1.128.0/17", "p3": "2001:db8::/33", "e1": "evpn2:1", "e2": "evpn2:2",
+            "q1": "vpn:65000:1:10.9.0.0/24", "q2": "vpn:65000:2:2001:db8:9::/48"}
 NEXTHOPS = {"n1": "192.0.2.1", "n2": "192.0.2.2", "n3": "192.0.2.3"}
 
 
@@ -74,7 +87,7 @@ NO_LLGR = [o for o in ALL_OPS if o not in ("markllgr", "dropllgr")]
 
 
 class Cfg:
-    def __init__(self, name, prefixes, sessions, rids, classes, nexthops, filt=(False,), limits=None, evpn=(), ops=None):
+    def __init__(self, name, prefixes, sessions, rids, classes, nexthops, filt=(False,), limits=None, evpn=(), ops=None, vrfs=()):
         self.name = name
         self.prefixes = list(prefixes)
         self.sessions = list(sessions)
@@ -85,10 +98,12 @@ class Cfg:
         self.limits = limits or {}
         self.evpn = list(evpn)
         self.ops = list(ops) if ops else list(ALL_OPS)
+        self.vrfs = list(vrfs)
+        self.vpn = [p for p in self.prefixes if PREFIXES[p].startswith("vpn:")]
 
     def describe(self):
         return {"prefixes": self.prefixes, "sessions": self.sessions, "rids": self.rids, "classes": self.classes,
-                "nexthops": self.nexthops, "filt": self.filt, "limits": self.limits, "evpn": self.evpn, "ops": self.ops}
+                "nexthops": self.nexthops, "filt": self.filt, "limits": self.limits, "evpn": self.evpn, "ops": self.ops, "vrfs": self.vrfs}
 
     def module(self, base="RibMC"):
         peers = sorted({SESSIONS[x]["peer"] for x in self.sessions})
@@ -110,12 +125,16 @@ class Cfg:
             c = CLASSES[cn]
             arms.append(f'c = "{cn}" -> [lp |-> {c["lp"]}, aslen |-> {aslen(c)}, origin |-> {c["origin"]}, clen |-> {c["clen"]}, '
                         f'oid |-> {c["oid"]}, llgrc |-> {tbool(0xFFFF0006 in c["comm"])}, '
-                        f'nollgr |-> {tbool(0xFFFF0007 in c["comm"])}, mm |-> {c["mm"]}]')
+                        f'nollgr |-> {tbool(0xFFFF0007 in c["comm"])}, mm |-> {c["mm"]}, rts |-> {tset(c.get("rts", []))}]')
         L.append("cClsInfo == [c \\in cCls |-> CASE " + "\n   [] ".join(arms) + "]")
         L.append(f"cNextHops == {tset(self.nexthops)}")
         L.append(f"cFilt == {{{', '.join(tbool(b) for b in self.filt)}}}")
         L.append(f"cEvpn == {tset(self.evpn)}")
         L.append(f"cOps == {tset(self.ops)}")
+        L.append(f"cVpn == {tset(self.vpn)}")
+        L.append(f"cVrfs == {tset(self.vrfs)}")
+        arms = [f'v = "{v}" -> {tset(VRFS[v][2])}' for v in self.vrfs]
+        L.append("cVrfImport == [v \\in cVrfs |-> " + ("CASE " + " [] ".join(arms) if arms else "{}") + "]")
         L.append("====")
         return "\n".join(L) + "\n"
 
@@ -123,7 +142,7 @@ class Cfg:
         t = "CONSTANTS\n"
         for k in ("Prefix", "Sess", "SessInfo", "Rids", "Cls", "ClsInfo", "NextHops"):
             t += f"  {k} <- c{k}\n"
-        t += "  FiltVals <- cFilt\n  EvpnT2 <- cEvpn\n  OpKinds <- cOps\n"
+        t += "  FiltVals <- cFilt\n  EvpnT2 <- cEvpn\n  OpKinds <- cOps\n  VpnPfx <- cVpn\n  Vrfs <- cVrfs\n  VrfImport <- cVrfImport\n"
         t += f"SPECIFICATION {spec}\n"
         if invariants:
             t += "INVARIANTS " + " ".join(invariants) + "\n"
@@ -159,7 +178,7 @@ def harness_config(cfg):
     for x in cfg.sessions:
         i = SESSIONS[x]
         sessions.append({"name": x, "peer": i["peer"], "addr": PEER_ADDR[i["peer"]], "ebgp": i["ebgp"],
-                         "rtr": i["rtr"], "max": cfg.limits.get(x)})
+                         "role": i.get("role", ""), "rtr": i["rtr"], "max": cfg.limits.get(x)})
     classes = {}
     for cn in cfg.classes:
         c = CLASSES[cn]
